@@ -172,8 +172,13 @@ theorem bad_value_no_change (s : View) (k v : Bytes) (h : (s.insert k v).2 = .ba
   repeat' split at h
   all_goals simp_all
 
-/-- **keys shorter than two bytes are invalid everywhere they are declared or used** -/
-theorem short_keys_invalid_everywhere (k : Bytes) (h : k.length < 2) :
+/-- **keys shorter than two bytes are rejected** at every site where a key is declared or
+written: `Valid`, `MaxChunks`, `DecodeChunks`, `Verify`, `VerifyValue`, `Keys.Add`, and
+`TStateView.Insert` in every state and scope. PARTIAL with respect to the property's "invalid
+everywhere they are declared or used": `GetValue` and `Remove` under `CompletePermissions`, and
+`SimulatedKeys.Has`, do not reject a short key — see `c40_counterexample` (known finding
+`short-key-use-not-rejected`). -/
+theorem short_keys_invalid_everywhere_partial (k : Bytes) (h : k.length < 2) :
     valid k = false ∧ maxChunks k = none ∧ decodeChunks k = none ∧
     (∀ a b, verify a b k = false) ∧
     (∀ v, verifyValue k v = false) ∧ (∀ n, verifyValueLen k n = false) ∧
@@ -204,10 +209,37 @@ theorem addAll_no_short_keys (k : Bytes) (h : k.length < 2) : ∀ (decls : List 
       refine addAll_no_short_keys k h rest _ m' ?_ hm
       have hjk : k ≠ j := by
         intro e; subst e
-        have := (short_keys_invalid_everywhere k h).1
+        have := (short_keys_invalid_everywhere_partial k h).1
         rw [this] at hv; cases hv
       simp [hjk, hk]
     · simp [hv] at hm
+
+/-! ### where a short key is *not* rejected (known finding `short-key-use-not-rejected`) -/
+
+/-- under a `state.Keys` scope a short key can never be declared, so it is denied there too -/
+theorem short_key_denied_under_declared_scope (k : Bytes) (h : k.length < 2)
+    (decls : List (List (Bytes × Perm.Perm))) (m : Perm.KeySet) (hm : Perm.stateKeys decls = some m)
+    (s : View) (hs : s.scope = m.has) :
+    s.get k = .perm ∧ (s.remove k) = (s, .perm) := by
+  have hk : m k = none := addAll_no_short_keys k h _ _ m rfl hm
+  have hr : s.scope k Perm.read = false := by rw [hs]; simp only [Perm.KeySet.has, hk]; decide
+  have hw : s.scope k Perm.write = false := by rw [hs]; simp only [Perm.KeySet.has, hk]; decide
+  exact ⟨by simp [View.get, View.checkScope, hr], by simp [View.remove, View.checkScope, hw]⟩
+
+/-- `SimulatedKeys.Has` answers true for a short key and records nothing -/
+theorem simulatedHas_short (k : Bytes) (h : k.length < 2) (m : Perm.KeySet) (p : Perm.Perm) :
+    Perm.simulatedHas m k p = (m, true) := by
+  simp [Perm.simulatedHas, (short_keys_invalid_everywhere_partial k h).2.2.2.2.2.2.1 m p]
+
+/-- **counterexample to "invalid everywhere they are used"**: with `CompletePermissions` the
+one-byte key `07`, present in the parent storage, is read (`09`), removed (`ok`, one op logged)
+and then reads as absent; and a simulated scope grants it. None of these uses is rejected. -/
+theorem c40_counterexample :
+    let k : Bytes := [7]
+    let s := TS.new.newView Perm.fullAccess (fun j => if j = k then .val [9] else .notFound)
+    k.length < 2 ∧ s.get k = .val [9] ∧ (s.remove k).2 = .ok ∧ (s.remove k).1.opIndex = 1 ∧
+    (s.remove k).1.get k = .notFound ∧ (Perm.simulatedHas Perm.KeySet.empty k Perm.all).2 = true := by
+  decide
 
 /-! ### non-vacuity -/
 example : numChunksLen 0 = some 0 ∧ numChunksLen 63 = some 1 ∧ numChunksLen 64 = some 2 := by decide
